@@ -703,6 +703,8 @@ C17(pre, env, req, resp, post) ==
                           /\ {cfg.askfee.acct, cfg.bidfee.acct} \cap {seller, b.owner, Contract} = {}
           IN If(/\ Has(at, "size") /\ at["size"] = req.size
                 /\ Has(at, "price") /\ at["price"] = req.price.n
+                \* quote amounts are whole units: a reported price x size that is not whole cannot be what was executed
+                /\ Integral(req.price, req.size)
                 /\ Has(at, "ask_fee") /\ at["ask_fee"] = afee
                 /\ Has(at, "bid_fee") /\ at["bid_fee"] \in bfees
                 \* a fee that has no account to go to cannot have been paid
